@@ -393,7 +393,7 @@ def extract_values(trace):
 # ---------------------------------------------------------------------------
 # native replay
 
-def native_replay(ctx, h, values, outdir, extra_defines=()):
+def native_replay(ctx, h, values, outdir, extra_defines=(), expect_desc=None):
     """Compile the same harness natively with ASan+UBSan against the real
     sources and run it on the solver's values. Returns (reproduced, info)."""
     os.makedirs(outdir, exist_ok=True)
@@ -438,6 +438,12 @@ def native_replay(ctx, h, values, outdir, extra_defines=()):
         return True, info
     if rc in (77,):
         info["kind"] = "assertion"
+        m = re.search(r"REPLAY-FAIL: (.*) \(", err)
+        got = m.group(1).strip() if m else ""
+        info["native_assertion"] = got
+        if "REPLAY-ASSUME-FALSE" in err and expect_desc is not None and got != expect_desc.strip():
+            info["kind"] = "assertion-after-false-assumption"
+            return False, info
         return True, info
     if rc in (78, 76) or rc < 0 or "AddressSanitizer" in err or "runtime error" in err:
         if rc == 79:
@@ -556,7 +562,8 @@ def run_one(ctx, h, known_keys, replay_root):
                     except Exception:
                         pass
                 rd = os.path.join(replay_root, re.sub(r"[^A-Za-z0-9_.-]", "_", h.name + "." + p["property"]))
-                ok, info = native_replay(ctx, h, vals, rd, extra_defines=excl)
+                ok, info = native_replay(ctx, h, vals, rd, extra_defines=excl,
+                                         expect_desc=p.get("description") if ".assertion." in p["property"] else None)
                 entry["replay_dir"] = rd
                 entry["reproduced"] = ok
                 entry["replay_info"] = {k: info.get(k) for k in ("rc", "kind", "timed_out", "error")}
